@@ -35,6 +35,58 @@ import "ex.com/sc"
 
 func ViaRoot() int { return *sc.RootSrc() }
 """,
+    # one nil source in package gb, dereferences in three packages of different directories, a fourth package that sees them
+    # all: ONE grouped diagnostic whose head (position, text) must not depend on the start directory (finding F106)
+    "g/ga/ga.go": """package ga
+
+var G = new(int)
+""",
+    "g/gb/gb.go": """package gb
+
+import "ex.com/sc/g/ga"
+
+func Reset() { ga.G = nil }
+""",
+    "p/gc/gc.go": """package gc
+
+import "ex.com/sc/g/ga"
+
+func Read() int { return *ga.G }
+""",
+    "p/gc/inner/inner.go": """package inner
+
+import "ex.com/sc/g/ga"
+
+func Read() int { return *ga.G }
+""",
+    "q/gd/gd.go": """package gd
+
+import "ex.com/sc/g/ga"
+
+func Read() int { return *ga.G }
+""",
+    "g/ge/ge.go": """package ge
+
+import (
+	"ex.com/sc/g/gb"
+	"ex.com/sc/p/gc"
+	"ex.com/sc/p/gc/inner"
+	"ex.com/sc/q/gd"
+)
+
+func Run() int {
+	gb.Reset()
+	return gc.Read() + inner.Read() + gd.Read()
+}
+""",
+    # a package seven directories deep: started there, the relative name of a file elsewhere in the module ("../" seven
+    # times) can be LONGER than its absolute name when the module lives at a short path
+    "q/c/d/e/f/g/h/deep7.go": """package h
+
+import "ex.com/sc/p/a"
+
+func Deep7() int { return a.UseRep(nil) + a.Src(true).V }
+""",
     "p/ab/ab.go": """package ab
 
 import "ex.com/sc/p/a"
@@ -127,18 +179,29 @@ def pathfuzz(ctx, n):
 def relocation(ctx):
     base = ctx.scratch()
     bad, runs = [], 0
+    shorts = []
     try:
         # the third location has a comma, a space and a percent sign in its directory names
         roots = [os.path.join(base, "one", "mod"), os.path.join(base, "two", "deeper", "nested", "mod2"), os.path.join(base, "with,comma", "sp ace%20x", "mod3")]
         results = {}
+        # the fourth location is as short as a scratch directory can be (/var/tmp/v<8 characters>, the module directly in it)
+        import tempfile
+        short = tempfile.mkdtemp(prefix="v", dir="/var/tmp")
+        os.rmdir(short)
+        shorts.append(short)
+        roots.append(short)
         for root in roots:
             os.makedirs(root)
             write_module(root)
             root = os.path.realpath(root)
             # a workspace file in the parent so that the tool can also be started above the module
             parent = os.path.dirname(root)
-            open(os.path.join(parent, "go.work"), "w").write("go 1.23\n\nuse ./%s\n" % os.path.basename(root))
-            for sub in ("", "p", "p/a", "q/c/d", ".."):
+            is_short = root in [os.path.realpath(x) for x in shorts]
+            if not is_short:
+                open(os.path.join(parent, "go.work"), "w").write("go 1.23\n\nuse ./%s\n" % os.path.basename(root))
+            for sub in ("", "p", "p/a", "q/c/d", "p/gc", "q/gd", "q/c/d/e/f/g/h", ".."):
+                if is_short and sub == "..":
+                    continue        # its parent is /var/tmp itself: nothing is written there
                 cwd = os.path.normpath(os.path.join(root, sub))
                 env_note = ""
                 rc, diags, text = run_binary(cwd, root)
@@ -179,6 +242,8 @@ def relocation(ctx):
             bad.append("reference run reports the nolinted line p/a/nl.go:4")
     finally:
         shutil.rmtree(base, ignore_errors=True)
+        for x in shorts:
+            shutil.rmtree(x, ignore_errors=True)
     return runs, bad
 
 
